@@ -338,11 +338,23 @@ fn run_case(ctx: &Ctx, cons: &Consensus, built: &Built, case: &Case, twins: &mut
     for (si, step) in case.history.iter().enumerate() {
         report.transitions += 1;
         match step {
-            Step::A(i) => {
-                node.process(&built.a[*i]).map_err(|e| format!("valid block A{i} refused: {e}"))?;
-            }
-            Step::B(i) => {
-                node.process(&built.b[*i]).map_err(|e| format!("valid block B{i} refused: {e}"))?;
+            Step::A(_) | Step::B(_) => {
+                let (name, blk) = match step {
+                    Step::A(i) => (format!("A{i}"), &built.a[*i]),
+                    Step::B(i) => (format!("B{i}"), &built.b[*i]),
+                    _ => unreachable!(),
+                };
+                if let Err(e) = node.process(blk) {
+                    // every block of the universe was accepted as a tip by the forge (same code,
+                    // canonical order): a refusal here depends on the history, i.e. on state the
+                    // history left behind
+                    let kind = e.to_string().split('(').take(2).collect::<Vec<_>>().join("(");
+                    report.violation(format!("valid-block-refused/{kind}"), format!("block {name}, accepted by a node that received its chain in order, is refused after this history: {e} [step {si}]"), json!({"case": case, "step": si}));
+                    report.traces += 1;
+                    report.evaluations += 1;
+                    node.shutdown();
+                    return Ok(report);
+                }
             }
             Step::Truncate(k) => {
                 let tipn = node.tip().number();
